@@ -597,5 +597,67 @@ theorem mul_zero_weight_floor (m : CostModel α) (hm : m.agg = .mul) (k : Nat) (
 
 end
 
+/-! ### 8. Witness and non-vacuity (evaluated by the kernel on `ℚ`) -/
+
+/-- The floor is not a lower bound of the charged cost: a positive pre-floor total below the floor is
+charged as it is (`enforce_strictly_positive` only replaces values `≤ 0`).  So "result ≥ MIN_COST"
+does not hold; "result > 0" (`traversal_cost_pos`) does. -/
+theorem charged_below_floor_witness :
+    ∃ (m : CostModel ℚ) (e : Nat) (prev next : List ℚ) (c : ℚ),
+      m.traversalCost e prev next = some c ∧ 0 < c ∧ c < minCost :=
+  ⟨{ indices := [0], weights := [1], vehicleRates := [.raw], networkRates := [.zero], agg := .sum },
+    0, [0], [minCost / 2], minCost / 2, by decide +kernel, by decide +kernel, by decide +kernel⟩
+
+/-- two features; the first rated by a nested combined rate and charged per edge and per turn, the
+second with weight zero -/
+def exSum : CostModel ℚ :=
+  { indices := [0, 1], weights := [2, 0],
+    vehicleRates := [.combined [.factor 3, .combined [.offset (-1), .combined []], .raw], .raw],
+    networkRates := [.combined [.edgeLookup [(3, 1/4)], .edgeEdgeLookup [((1, 3), 4)]], .edgeLookup [(3, 100)]],
+    agg := .sum }
+
+/-- the same under mul aggregation, both weights non-zero -/
+def exMul : CostModel ℚ := { exSum with weights := [2, -1], agg := .mul }
+
+-- §1: the functions return on in-range input; positive delta: the formula; the per-turn surcharge
+-- goes to the access cost only, the per-edge surcharge to the traversal cost only
+example : exSum.traversalCost 3 [1, 0] [2, 7] = some (2 * ((1 * 3 - 1)) + 2 * (1/4)) := by decide +kernel
+example : exSum.accessCost 1 3 [1, 0] [2, 7] = some (2 * ((1 * 3 - 1)) + 2 * 4) := by decide +kernel
+example : exSum.costEstimate [1, 0] [2, 7] = some (2 * ((1 * 3 - 1))) := by decide +kernel
+-- negative delta (regained energy): floor, and the estimate is clipped to zero
+example : exSum.traversalCost 0 [2, 0] [1, 7] = some minCost := by decide +kernel
+example : exSum.accessCost 0 0 [2, 0] [1, 7] = some minCost := by decide +kernel
+example : exSum.costEstimate [2, 0] [1, 7] = some 0 := by decide +kernel
+-- zero delta with a negative offset: floor
+example : exSum.traversalCost 0 [1, 0] [1, 0] = some minCost := by decide +kernel
+-- §1: the edge record, with a previous edge
+example : edgeTotalCost (edgeAccessShare (exSum.accessCost 1 3 [1, 0] [2, 7])) (4 + 1/2) = 4 + 1/2 := by
+  decide +kernel
+-- §2: too short a state vector: none from all three; `new` accepts / rejects
+example : exSum.traversalCost 3 [1] [2, 7] = none ∧ exSum.accessCost 1 3 [1, 0] [2] = none
+    ∧ exSum.costEstimate [] [] = none := by decide +kernel
+example : (CostModel.new [((some 1 : Option ℚ), some .raw, none), (none, none, none)] .sum).isSome = true := by
+  decide +kernel
+example : CostModel.new [((some 1 : Option ℚ), some .raw, none), (some (-1), none, none)] .sum = none := by
+  decide +kernel
+example : CostModel.new ([] : List (FeatureConfig ℚ)) .sum = none := by decide +kernel
+-- §3/§5: the hypotheses of the formula and linearity theorems are satisfiable
+example : exSum.agg = .sum ∧ (exSum.traversalTotal 3 [1, 0] [2, 7]).isSome = true
+    ∧ (({ exSum with weights := [1, 1] }).traversalTotal 3 [1, 0] [2, 7]).isSome = true := by decide +kernel
+-- §5: the pre-floor value of weights 2·(2,0) + 3·(1,1) is 2·(…) + 3·(…), also when it is negative
+example : ({ exSum with weights := [7, 3] }).traversalTotal 3 [2, 0] [1, 7]
+    = (do let a ← exSum.traversalTotal 3 [2, 0] [1, 7]
+          let b ← ({ exSum with weights := [1, 1] }).traversalTotal 3 [2, 0] [1, 7]
+          pure (2 * a + 3 * b)) := by decide +kernel
+-- §6: feature 1 has weight zero: its state and rates do not matter
+example : exSum.wt 1 = 0 := by decide +kernel
+example : exSum.traversalCost 3 [1, 5] [2, -9] = exSum.traversalCost 3 [1, 0] [2, 7] := by decide +kernel
+-- §7: mul aggregation: product of the per-feature costs plus product of the surcharges
+example : exMul.accessCost 1 3 [1, 7] [2, 0] = some ((2 * 2) * (-7 * -1) + (4 * 2) * (0 * -1)) := by
+  decide +kernel
+example : exMul.traversalCost 3 [1, 0] [2, 7] = some minCost := by decide +kernel
+-- a zero weight annihilates the product
+example : ({ exSum with agg := .mul }).traversalCost 3 [1, 0] [2, 7] = some minCost := by decide +kernel
+
 end C07
 end Compass
